@@ -7,6 +7,7 @@ use crate::types::{attr_split, extract_urlref, href_elref, strp, AttrMap, ClassL
 use crate::TransformConfig;
 
 use std::cell::RefCell;
+use std::rc::Rc;
 use std::collections::{HashMap, HashSet};
 use std::time::{SystemTime, UNIX_EPOCH};
 
@@ -101,7 +102,7 @@ impl Scope {
 /// position in the random sequence.
 #[derive(Clone)]
 pub struct Surroundings {
-    scope_stack: Vec<Scope>,
+    scope_stack: Vec<Rc<Scope>>,
     rng: Pcg32,
     prev_element: Option<SvgElement>,
     prev_original: Option<SvgElement>,
@@ -119,10 +120,6 @@ pub struct TransformerContext {
     pending_ids: HashSet<String>,
     /// ids of elements which have been evaluated successfully at least once
     completed_ids: HashSet<String>,
-    /// ids which are written out literally in the document
-    literal_ids: HashSet<String>,
-    /// Where each computed id (one holding a variable or an expression) was written
-    computed_id_sites: HashMap<String, String>,
     /// number of elements of the output whose content is being processed
     open_output_elements: u32,
     /// Stack of elements which have been started but not yet ended
@@ -134,7 +131,7 @@ pub struct TransformerContext {
     /// The element which `^` refers to; some elements are ignored as 'previous'
     prev_element: Option<SvgElement>,
     /// Stack of scoped variables etc
-    scope_stack: Vec<Scope>,
+    scope_stack: Vec<Rc<Scope>>,
     /// Pcg32 is used as it is both seedable and portable.
     rng: RefCell<Pcg32>,
     /// Current recursion depth
@@ -151,6 +148,8 @@ pub struct TransformerContext {
     prev_original: Option<SvgElement>,
     /// Number of times the previous element has been set
     prev_count: u64,
+    /// Number of times an element with an id has been registered for evaluation
+    registered_count: usize,
     /// Config of transformer processing; updated by <config> elements
     pub config: TransformConfig,
 }
@@ -170,8 +169,6 @@ impl Default for TransformerContext {
             original_map: HashMap::new(),
             pending_ids: HashSet::new(),
             completed_ids: HashSet::new(),
-            literal_ids: HashSet::new(),
-            computed_id_sites: HashMap::new(),
             open_output_elements: 0,
             element_stack: Vec::new(),
             prev_element: None,
@@ -180,6 +177,7 @@ impl Default for TransformerContext {
             local_style_id: None,
             prev_original: None,
             prev_count: 0,
+            registered_count: 0,
             current_depth: 0,
             real_svg: false,
             in_specs: false,
@@ -459,12 +457,16 @@ impl TransformerContext {
     fn ensure_scope(&mut self) -> &mut Scope {
         if self.scope_stack.is_empty() {
             let scope = Scope::default();
-            self.scope_stack.push(scope);
+            self.scope_stack.push(Rc::new(scope));
         }
 
-        self.scope_stack
-            .last_mut()
-            .expect("Scope-stack should be non-empty")
+        // (scopes are shared with the `Surroundings` recorded for elements which
+        // wait, and copied only when written to while they are)
+        Rc::make_mut(
+            self.scope_stack
+                .last_mut()
+                .expect("Scope-stack should be non-empty"),
+        )
     }
 
     pub fn set_element_default(&mut self, el: &SvgElement) {
@@ -602,7 +604,7 @@ impl TransformerContext {
         let attrs = el.get_attrs();
         self.element_stack.push(el.clone());
         let scope = Scope::with_vars(attrs);
-        self.scope_stack.push(scope);
+        self.scope_stack.push(Rc::new(scope));
     }
 
     pub fn pop_element(&mut self) -> Option<SvgElement> {
@@ -702,20 +704,8 @@ impl TransformerContext {
     /// target, but not (yet) as the target of a reference. Returns the id used.
     pub fn register_pending(&mut self, el: &mut SvgElement) -> Option<String> {
         let id = el.get_attr("id")?;
-        // An id written out in the document (rather than computed) is one of a fixed,
-        // finite set; see `progress()`.
-        let computed = id.contains(crate::constants::VAR_PREFIX) || id.contains("{{");
-        if !computed {
-            self.literal_ids.insert(id.clone());
-        }
-        let written = id.clone();
+        self.registered_count += 1;
         let id = eval_attr(&id, self).unwrap_or(id);
-        if computed {
-            // ... and so is the place where a computed id is written, whatever values
-            // it takes there
-            self.computed_id_sites
-                .insert(id.clone(), format!("{:?} {written}", el.order_index));
-        }
         // The element keeps the evaluated id, so that an expression in it is
         // evaluated once rather than again with the element's other attributes.
         el.set_attr("id", &id);
@@ -727,18 +717,19 @@ impl TransformerContext {
     /// The element registered under `id` has been evaluated.
     pub fn clear_pending(&mut self, id: &str) {
         self.pending_ids.remove(id);
-        if self.literal_ids.contains(id) {
-            self.completed_ids.insert(id.to_owned());
-        } else if let Some(site) = self.computed_id_sites.get(id) {
-            self.completed_ids.insert(site.clone());
-        }
+        self.completed_ids.insert(id.to_owned());
     }
 
     /// A measure of progress which only ever grows, and not without bound: the number
-    /// of distinct elements, among those whose id is written out in the document,
-    /// evaluated successfully so far at any nesting level. (A computed id counts once for
-    /// the place it is written at: a retried element may produce a new one at every attempt.)
+    /// of distinct ids of elements evaluated successfully so far at any nesting level.
+    /// (Also for computed ids: an element which is tried again is evaluated in the same
+    /// surroundings as before - see `Waiting` - and so computes the same id.)
     pub fn progress(&self) -> usize {
         self.completed_ids.len()
+    }
+
+    /// How many times an element with an id has been registered for evaluation so far
+    pub fn registered_count(&self) -> usize {
+        self.registered_count
     }
 }
